@@ -1708,3 +1708,141 @@ theorem C18_ambiguous_union_witness :
   decide
 
 end Utv.C18
+
+namespace Utv.C18
+
+/-! ### cost of unions nested through containers (no data class in between)
+
+`envOk` / `noData` already cover this shape: a union whose alternatives are leaves and containers of further such
+unions restarts nothing, because `enter` passes the stage's preferences down (`self.options & options`) and only a
+data class resets them.  The general statement is `C18_cost_containers` (weight × size, weight = `tyWt`); for the
+JSON-like family `V(0) = Leaf, V(n+1) = Union[Leaf, List[V(n)]]` the weight is at most `(n+1)³`, so the work is
+polynomial in the nesting depth and linear in the input — for valid and invalid inputs alike. -/
+
+/-- **Containers and unions of leaves**: no data class anywhere in the type ⇒ cost ≤ weight(type) · size(input),
+in every context, for every input. -/
+theorem C18_cost_containers (W : World) (Q : Quirks) (E : Env) (fuel : Nat) (c : Ctx) (T : Ty) (v : Val)
+    (hT : noData T = true) : (parse W Q E fuel c T v).2 ≤ tyWt c.mode T * vsize v :=
+  parse_costFree W Q E fuel c T v hT
+
+/-- `V(0) = Leaf`, `V(n+1) = Union[Leaf, List[V(n)]]` -/
+def jsonTy : Nat → Ty
+  | 0 => .leaf
+  | n + 1 => .union [.leaf, .list (jsonTy n)]
+
+theorem noData_jsonTy (n : Nat) : noData (jsonTy n) = true := by
+  induction n with
+  | zero => rfl
+  | succ n ih => simp [jsonTy, noData, noDataL, ih]
+
+theorem tyWt_jsonTy_strict (n : Nat) : tyWt Mode.strict (jsonTy n) = n + 1 := by
+  induction n with
+  | zero => rfl
+  | succ n ih => simp [jsonTy, tyWt, tyWtL, stage2, stage3, Mode.strict, ih] at ih ⊢; omega
+
+theorem sq_succ (a : Nat) : (a + 1) * (a + 1) = a * a + 2 * a + 1 := by
+  simp only [Nat.add_mul, Nat.mul_add, Nat.mul_one, Nat.one_mul]; omega
+
+theorem cube_succ (a : Nat) : (a + 1) * (a + 1) * (a + 1) = a * a * a + 3 * (a * a) + 3 * a + 1 := by
+  simp only [Nat.add_mul, Nat.mul_add, Nat.mul_one, Nat.one_mul]; omega
+
+/-- a context that already has one of the two preferences: quadratic weight -/
+theorem tyWt_jsonTy_half (m : Mode) (hm : (m.noLoss && m.noCast) = false) (h3 : stage3 m = false) (n : Nat) :
+    tyWt m (jsonTy n) ≤ (n + 1) * (n + 1) := by
+  have h2 : stage2 m = true := by
+    cases m with | mk a b => cases a <;> cases b <;> simp_all [stage2]
+  induction n with
+  | zero => simp [jsonTy, tyWt]
+  | succ n ih =>
+    have hs := tyWt_jsonTy_strict n
+    simp only [jsonTy, tyWt, tyWtL, h2, h3, if_true, Bool.false_eq_true, if_false] at ih ⊢
+    rw [sq_succ (n + 1)]
+    omega
+
+theorem tyWt_jsonTy_le (m : Mode) (n : Nat) : tyWt m (jsonTy n) ≤ (n + 1) * (n + 1) * (n + 1) := by
+  have hsq : ∀ k : Nat, (k + 1) * (k + 1) ≤ (k + 1) * (k + 1) * (k + 1) := fun k =>
+    Nat.le_mul_of_pos_right _ (Nat.succ_pos k)
+  rcases m with ⟨a, b⟩
+  cases a <;> cases b
+  · -- lenient: all three stages
+    induction n with
+    | zero => simp [jsonTy, tyWt]
+    | succ n ih =>
+      have hs := tyWt_jsonTy_strict n
+      have hh := tyWt_jsonTy_half ⟨true, false⟩ rfl rfl n
+      simp only [jsonTy, tyWt, tyWtL, stage2, stage3, Bool.not_false, Bool.or_self, Bool.and_self, if_true] at ih ⊢
+      rw [cube_succ (n + 1)]
+      omega
+  · exact Nat.le_trans (tyWt_jsonTy_half ⟨false, true⟩ rfl rfl n) (hsq n)
+  · exact Nat.le_trans (tyWt_jsonTy_half ⟨true, false⟩ rfl rfl n) (hsq n)
+  · have := tyWt_jsonTy_strict n
+    simp only [Mode.strict] at this
+    rw [this]
+    exact Nat.le_trans (Nat.le_mul_of_pos_right _ (Nat.succ_pos n)) (hsq n)
+
+/-- **Unions nested through containers cost polynomially**: for the JSON-like type of nesting depth `n`, every
+input `v`, every context and leaf behaviour, valid or invalid: at most `(n+1)³ · size(v)` leaf conversions. -/
+theorem C18_cost_nested_union (W : World) (Q : Quirks) (E : Env) (fuel : Nat) (c : Ctx) (n : Nat) (v : Val) :
+    (parse W Q E fuel c (jsonTy n) v).2 ≤ (n + 1) * (n + 1) * (n + 1) * vsize v :=
+  Nat.le_trans (C18_cost_containers W Q E fuel c (jsonTy n) v (noData_jsonTy n))
+    (Nat.mul_le_mul_right _ (tyWt_jsonTy_le c.mode n))
+
+end Utv.C18
+
+namespace Utv.C18
+
+/-! ### cyclic inputs built from sequences alone
+
+`x = []; x.append(x)` given where a data class is expected: `transform_dataclass` takes the first item once
+(cls.py:616-622), `to_dict` looks one item further (transform.py `_attempt_from`) — and stops.  Every unfolding of
+such an object beyond three levels is a sequence whose first item is a non-empty sequence whose first item is a
+non-empty sequence: it never stands for a mapping, under any preferences, with or without a depth limit, at no cost. -/
+
+/-- **A self-containing sequence is rejected at once** (any class, context, limit, fuel; zero conversions). -/
+theorem C18_seqcycle_rejected (W : World) (Q : Quirks) (E : Env) (fuel : Nat) (c : Ctx) (k : Nat)
+    (stub : Val) (more : List Val) :
+    (parse W Q E fuel c (.data k) (.list [.list [.list (stub :: more)]])).1.isOk = false ∧
+    (parse W Q E fuel c (.data k) (.list [.list [.list (stub :: more)]])).2 = 0 := by
+  cases fuel with
+  | zero => exact ⟨rfl, rfl⟩
+  | succ n =>
+    simp only [parse, step]
+    cases E[k]? with
+    | none => exact ⟨rfl, rfl⟩
+    | some cd =>
+      have key : ∀ o : Out Res × Nat, (o = (.err { depth := true }, 0) ∨ o = (.err {}, 0)) →
+          o.1.isOk = false ∧ o.2 = 0 := by
+        rintro o (rfl | rfl) <;> exact ⟨rfl, rfl⟩
+      apply key
+      rcases c with ⟨d, ⟨cl, cc⟩, md⟩
+      rcases hcd : cd.mode with ⟨a, b⟩
+      by_cases hex : exceeded cd.maxDepth (d + 1) = true <;>
+        cases cc <;> cases a <;> cases b <;> simp [unwrapData, toDict, hex]
+
+/-- … and, at any position below a data class, the declarations force arbitrarily many levels on it (vacuously:
+no reading exists), so `C18_deep_rejected` applies to inputs that contain it wherever a data class is expected -/
+example (E : Env) (k : Nat) (stub : Val) (n : Nat) : Forced E (.data k) (.list [.list [.list [stub]]]) n := by
+  refine .dataSeq k _ n ?_
+  intro m m' v1 kvs hu ht
+  rcases unwrapData_cases m _ _ v1 hu with rfl | rfl
+  · rcases m' with ⟨a, b⟩
+    cases a <;> cases b <;> simp [toDict] at ht
+  · rcases m' with ⟨a, b⟩
+    cases a <;> cases b <;> simp [toDict] at ht
+
+/-- a cycle through a data class *and* a single-item sequence standing for it (`d['nx'] = [d]` with `nx: 'Node'`)
+is forced one level per turn, like the plain cycle: `C18_cyclic_rejected` applies -/
+example : ∀ y m,
+    Forced [{ fields := [("nx", .data 0)] }] (.data 0) (.dict [(.str "nx", .list [y])]) m →
+    Forced [{ fields := [("nx", .data 0)] }] (.data 0)
+      (.dict [(.str "nx", .list [.dict [(.str "nx", .list [y])]])]) (m + 1) := by
+  intro y m h
+  refine .data 0 _ _ "nx" (.data 0) _ m rfl rfl rfl ?_
+  refine .dataSeq 0 _ m ?_
+  intro m1 m2 v1 kvs hu ht
+  rcases unwrapData_cases m1 _ _ v1 hu with rfl | rfl
+  · simp [toDict] at ht; subst ht; exact h
+  · rcases m2 with ⟨a, b⟩
+    cases a <;> cases b <;> simp [toDict] at ht <;> (subst ht; exact h)
+
+end Utv.C18
